@@ -16,9 +16,11 @@ EXPLANATION = (
     "rejects every tag for which is_var_table(tag) holds (R12-T); is_var_table accepts exactly the tags ending in 'var'/'VAR' — all "
     "of fvar avar gvar cvar HVAR VVAR MVAR (R12-P, the predicate read from MIR); in the CFF2 branch the variation store is "
     "cleared (vstore = None) after instance_char_strings and before the CFF2 value is re-wrapped for writing (R12-V); the returned "
-    "bytes come from FontBuilderWithHead::data (R12-D). Plus bounded recursion of calculate_bounding_box (C01-a)."
+    "bytes come from FontBuilderWithHead::data (R12-D). Plus bounded recursion of calculate_bounding_box (C01-a). The per-axis region scalar, "
+    "read as a decision list and evaluated exactly on a grid, equals the specification's tent function, also over the implied region of a "
+    "tuple without intermediate coordinates (R12-TENT)."
 )
-NOT_DECIDED = ("every numeric clause: region scalars, delta accumulation, IUP interpolation, phantom points, HVAR/MVAR application, "
+NOT_DECIDED = ("the numeric clauses other than the region scalar: delta accumulation, IUP interpolation, phantom points, HVAR/MVAR application, "
                "rounding, equality with the default master at default coordinates.")
 
 VAR_TAGS = ["fvar", "avar", "gvar", "cvar", "HVAR", "VVAR", "MVAR"]
